@@ -185,26 +185,45 @@ def pyRange (start stop step : Int) : Option (List Int) :=
   else
     some (progression start step (if stop < start then ((start - stop - 1) / (-step) + 1).toNat else 0))
 
-/-- the pure primitives; `none` = the Python operation raises -/
-def prim (op : String) (args : List Val) : Option Val :=
+/-- results of the primitives that build new first-order values -/
+inductive PV where
+  | int (i : Int) | flt (q : Rat) | bool (b : Bool) | slice (s : PySlice)
+  | ints (l : List Int) | flts (l : List Rat) | grid (g : GridV)
+  | devfn (kern : String) (xt yt : List Int) (rev : Bool)
+
+def PV.toVal : PV → Val
+  | .int i => .int i
+  | .flt q => .flt q
+  | .bool b => .bool b
+  | .slice s => .slice s
+  | .ints l => .list (l.map .int)
+  | .flts l => .list (l.map .flt)
+  | .grid g => .grid g
+  | .devfn k xt yt r => .devfn k xt yt r
+
+/-- primitives whose result is one of their arguments (or a list of them) -/
+def primPass (op : String) (args : List Val) : Option Val :=
   match op, args with
-  | "add", [a, b] | "sub", [a, b] | "mul", [a, b] | "floordiv", [a, b] | "mod", [a, b] => arith op a b
-  | "lt", [a, b] | "le", [a, b] | "gt", [a, b] | "ge", [a, b] | "eq", [a, b] | "ne", [a, b] => compare op a b
-  | "neg", [a] => match a with
-    | .int i => some (.int (-i)) | .flt q => some (.flt (-q)) | _ => none
-  | "not", [a] => (truthy a).map fun b => .bool (!b)
   | "and", [a, b] => (truthy a).bind fun x => if x then some b else some a
   | "or", [a, b] => (truthy a).bind fun x => if x then some a else some b
   | "list", l => some (.list l)
+  | "index", [.list l, i] => (asInt i).bind (pyIndex l)
+  | _, _ => none
+
+/-- primitives building a new first-order value; `none` = the Python operation raises -/
+def primNew (op : String) (args : List Val) : Option PV :=
+  match op, args with
+  | "neg", [a] => match a with
+    | .int i => some (.int (-i)) | .flt q => some (.flt (-q)) | _ => none
+  | "not", [a] => (truthy a).map fun b => .bool (!b)
   | "slice", [a, b, c] =>
     let o : Val → Option (Option Int) := fun v => match v with
       | .none => some none | .int i => some (some i) | _ => none
     do some (.slice ⟨← o a, ← o b, ← o c⟩)
-  | "index", [.list l, i] => (asInt i).bind (pyIndex l)
   | "len", [.list l] => some (.int l.length)
   | "range", [a, b, c] => do
     let r ← pyRange (← asInt a) (← asInt b) (← asInt c)
-    some (.list (r.map .int))
+    some (.ints r)
   | "float", [a] => (asRat a).map .flt
   -- grids
   | "from_positions", [xs, ys] => do
@@ -215,13 +234,22 @@ def prim (op : String) (args : List Val) : Option Val :=
     (g.repeat_ (← asInt xt) (← asInt yt) (← asRat xg) (← asRat yg)).map .grid
   | "sub_grid", [.grid g, xi, yi] => do (g.getView (← asInts xi) (← asInts yi)).map .grid
   | "getitem2", [.grid g, ix, iy] => do (g.getItem (← asGIndex ix) (← asGIndex iy)).map .grid
-  | "shape", [.grid g] => some (.list [.int g.val.numX, .int g.val.numY])
-  | "get_xpos", [.grid g] => some (.list (g.val.xPositions.map .flt))
-  | "get_ypos", [.grid g] => some (.list (g.val.yPositions.map .flt))
+  | "shape", [.grid g] => some (.ints [g.val.numX, g.val.numY])
+  | "get_xpos", [.grid g] => some (.flts g.val.xPositions)
+  | "get_ypos", [.grid g] => some (.flts g.val.yPositions)
   -- schedule values
   | "device_fn", [.str k, xt, yt] => do some (.devfn k (← asInts xt) (← asInts yt) false)
   | "reverse", [.devfn k xt yt r] => some (.devfn k xt yt (!r))
   | _, _ => none
+
+/-- the pure primitives; `none` = the Python operation raises -/
+def prim (op : String) (args : List Val) : Option Val :=
+  if op ∈ ["add", "sub", "mul", "floordiv", "mod"] then
+    match args with | [a, b] => arith op a b | _ => none
+  else if op ∈ ["lt", "le", "gt", "ge", "eq", "ne"] then
+    match args with | [a, b] => compare op a b | _ => none
+  else if op ∈ ["and", "or", "list", "index"] then primPass op args
+  else (primNew op args).map PV.toVal
 
 /-! ## effects -/
 
